@@ -56,6 +56,7 @@ def lifecycle(name, doc, eq, rounds=ROUNDS, sig_prefix='B2', feat=''):
     scales = {}
     ends = None
     doc = cur = du.as_loadable(doc)
+    eq = copy.deepcopy(eq)          # one equipment library object per life cycle, shared by all its designs
     stage = 'first-design'
     try:
         for k in range(rounds + 1):
@@ -69,7 +70,11 @@ def lifecycle(name, doc, eq, rounds=ROUNDS, sig_prefix='B2', feat=''):
             exported = network_to_json(net)
             text = json.dumps(exported)                       # the saved file
             ev.append(dict(op='Export', x=du.project_export(json.loads(text), scales)))
-            if k == 0:                                        # designing the same input twice
+            if k == 0:                                        # designing the same input twice ...
+                # ... with the same equipment library having served another design (explicit design power) meanwhile
+                stage = 'design-elsewhere'
+                du.design(doc, eq, args_power=float(eq['SI']['default'].power_dbm) + 3)
+                ev.append(dict(op='Elsewhere'))
                 stage = 'twin-design'
                 _, _, net_b, _, _ = du.design(doc, eq)
                 ev.append(dict(op='Twin', x=du.project_export(json.loads(json.dumps(network_to_json(net_b))), scales)))
@@ -184,8 +189,10 @@ def run(chk):
     # 2-ROADM shape: every chain kind x (quick: the strength-3 half fraction of the 16 settings | thorough: all 16);
     # larger shapes: every stride-th case
     picked = [c for c in two if tier == 'thorough' or settings_l8(c)] + more[chk.seed % stride::stride]
-    if tier == 'quick':       # a surviving Raman life cycle costs ~3 s (5 Raman estimations + 4 Raman propagations)
-        picked = [c for c in picked if not any(e['t'] == 'RamanFiber' for e in c['g']) or c['s']['maxLen'] > 100000]
+    if tier == 'quick':       # a Raman life cycle costs ~3 s (6 Raman estimations + 4 Raman propagations): padding 10, EOL 0
+        picked = [c for c in picked if not any(e['t'] == 'RamanFiber' for e in c['g'])
+                  or (c['s']['padding'] > 0 and c['s']['eol'] == 0
+                      and (c['s']['powerMode'] or any(e['t'] == 'Edfa' for e in c['g'])))]
     du.reset_sim()
     traces = []
     for c, (tr, viol) in zip(picked, du.parallel_map(_b2_one, picked)):
@@ -425,6 +432,19 @@ def _mut_export_delta_p_without_voa():
     elements.Edfa.to_json = property(to_json)
 
 
-MUTANTS = {'restore_raman_only': _mut_restore_raman_only, 'no_restore': _mut_no_restore,
+def _mut_args_power_kept_in_library():
+    """designed_network keeps an explicit design power in the shared equipment library (SI power_dbm)"""
+    import gnpy.tools.worker_utils as wu
+    orig = wu.designed_network
+
+    def designed_network(equipment, network, *a, **k):
+        res = orig(equipment, network, *a, **k)
+        if k.get('args_power'):
+            equipment['SI']['default'].power_dbm = float(k['args_power'])
+        return res
+    wu.designed_network = designed_network
+
+
+MUTANTS = {'args_power_kept_in_library': _mut_args_power_kept_in_library, 'restore_raman_only': _mut_restore_raman_only, 'no_restore': _mut_no_restore,
            'export_drops_voa': _mut_export_drops_voa, 'export_rounds_gain_coarsely': _mut_export_rounds_gain_coarsely,
            'counter_in_uid': _mut_counter_in_uid, 'export_delta_p_without_voa': _mut_export_delta_p_without_voa}
